@@ -8,6 +8,7 @@ package main
 import (
 	"context"
 	"fmt"
+	"math"
 	"sync"
 	"sync/atomic"
 	"time"
@@ -106,6 +107,74 @@ func wuDuringStart(call string, restart bool, delay time.Duration) (violation st
 	}
 	if lat := time.Duration(st - ref); lat > wuLimit {
 		return fmt.Sprintf("C05 late wake-up: Execute started %v after max(API return, fire time) (%s)", lat, desc), true
+	}
+	return "", true
+}
+
+// C05, "never" beside a short interval: a job whose SimpleTrigger interval is time.Duration(math.MaxInt64) (an interval
+// used as "never") is scheduled beside a job with a 5 ms interval. The fire time of the first one is beyond the largest
+// representable time; it must not end up AHEAD of the 5 ms job (a wrapped, negative fire time stays at the head of the
+// queue for ever: every tick finds it outdated and re-bases it to another negative time, the loop spins and nothing else
+// is ever dispatched). Verdict, one-sided: the 5 ms job starts at all (within 300 ms + 2 s of its first fire time), the
+// "never" job is not executed, and the loop does not spin (a 5 ms job makes the loop pop about 60 times in 300 ms; a spinning loop pops tens of thousands
+// of times).
+type wuCountJob struct{ n atomic.Int64 }
+
+func (j *wuCountJob) Execute(context.Context) error { j.n.Add(1); return nil }
+func (j *wuCountJob) Description() string           { return "count" }
+
+const wuSpinPops = 5000 // Pop calls in 300 ms that only a spinning loop can make
+
+func wuNeverBeside(neverFirst bool) (violation string, ok bool) {
+	desc := fmt.Sprintf("SimpleTrigger(math.MaxInt64) scheduled %s a SimpleTrigger(5ms) job", map[bool]string{true: "before", false: "after"}[neverFirst])
+	q := &wuStallQ{JobQueue: quartz.NewJobQueue(), inSize: make(chan struct{}, 1), inHead: make(chan struct{}, 1)}
+	s, err := quartz.NewStdScheduler(quartz.WithQueue(q, &sync.Mutex{}), quartz.WithOutdatedThreshold(10*time.Second))
+	if err != nil {
+		return "", false
+	}
+	ctx, cancel := context.WithCancel(context.Background())
+	defer func() {
+		s.Stop()
+		cancel()
+		wctx, wc := context.WithTimeout(context.Background(), 3*time.Second)
+		s.Wait(wctx)
+		wc()
+	}()
+	s.Start(ctx)
+	never, tick := &wuCountJob{}, &wuJob{}
+	schedNever := func() error {
+		return s.ScheduleJob(quartz.NewJobDetail(never, quartz.NewJobKey("never")), quartz.NewSimpleTrigger(time.Duration(math.MaxInt64)))
+	}
+	if neverFirst {
+		if schedNever() != nil {
+			return "", false
+		}
+	}
+	if err := s.ScheduleJob(quartz.NewJobDetail(tick, quartz.NewJobKey("tick")), quartz.NewSimpleTrigger(5*time.Millisecond)); err != nil {
+		return "", false
+	}
+	if !neverFirst {
+		if schedNever() != nil {
+			return "", false
+		}
+	}
+	ref := time.Now().UnixNano() + int64(5*time.Millisecond) // not before the first fire time of the 5 ms job
+	pops0 := q.pops.Load()
+	time.Sleep(wuLimit)
+	pops := q.pops.Load() - pops0
+	if pops > wuSpinPops {
+		starved := map[bool]string{true: "the 5 ms job was not executed at all meanwhile (starved)", false: "the 5 ms job was executed meanwhile"}[tick.started.Load() == 0]
+		return fmt.Sprintf("C05 the loop spins: %d Pop calls in %v with one 5 ms job and one job that is never due; %s (%s)", pops, wuLimit, starved, desc), true
+	}
+	for tick.started.Load() == 0 && time.Now().UnixNano() < ref+int64(wuLimit+wuWatch) {
+		time.Sleep(250 * time.Microsecond)
+	}
+	if n := never.n.Load(); n > 0 {
+		return fmt.Sprintf("C05 a job whose interval is beyond the largest representable time was executed %d time(s) within %v (%s)", n, wuLimit, desc), true
+	}
+	st := tick.started.Load()
+	if st == 0 {
+		return fmt.Sprintf("C05 starvation: the 5 ms job had not started %v after its first fire time; the loop made %d Pop calls meanwhile (%s)", wuLimit+wuWatch, pops, desc), true
 	}
 	return "", true
 }
